@@ -117,6 +117,7 @@ def translate_write(body):
     stmts = split_statements(body)
     lock_alias = False
     saw_result = False
+    saw_resume = False
     for s in map(norm, stmts):
         m = re.fullmatch(r'__point\((\d+)\);', s)
         if m:
@@ -145,13 +146,21 @@ def translate_write(body):
             prog.append('WCallF')
             continue
         if s == 'ifletErr(e)=result{std::panic::resume_unwind(e);}':
-            # panic propagation after the last atomic step: not a step of the protocol
+            # where the caught panic of the closure is re-raised: a step of the program,
+            # everything after it is skipped when the closure panicked
             if not saw_result:
                 die('write: resume_unwind before the closure call')
+            if saw_resume:
+                die('write: the panic is re-raised twice')
+            saw_resume = True
+            prog.append('WResume')
             continue
         die('write: statement outside the translated subset: %r' % s)
     if not saw_result:
         die('write: no call of the user closure found')
+    if not saw_resume:
+        die('write: the closure runs under catch_unwind but the panic is never re-raised '
+            '(`if let Err(e) = result { resume_unwind(e) }` not found): cannot place WResume')
     return prog, points
 
 
